@@ -82,6 +82,13 @@ def outUnit (tab : List (Gen.UnitsData.UnitRow α)) (u : String) : String :=
   | some r => r.out
   | none => u
 
+/-- the returned unit list: `out_units += [convert[units[i]][2]]` for a recognised unit, `out_units += units[i]` in the
+    `except KeyError` branch — `list += str` extends the list by the CHARACTERS of the string -/
+def outUnits (tab : List (Gen.UnitsData.UnitRow α)) (units : List String) : List String :=
+  units.flatMap (fun u => match lookup tab u with
+    | some r => [r.out]
+    | none => u.toList.map String.singleton)
+
 /-- `data.transpose()` of a 2-D array given as rows -/
 def transpose (rows : List (List α)) : List (List α) :=
   (List.range (rows.headD []).length).map (fun j => rows.map (fun r => r.getD j 0))
@@ -296,6 +303,10 @@ def dispatch : Dispatch := fun name args =>
   | "Convert.ambient_array", .n nrows :: .n ncols :: .v flat :: us =>
       match unitArgs us with
       | some units => some [.v (convertUnits (Gen.UnitsData.ambient (α := Float)) (splitRows ncols flat nrows) units)]
+      | none => none
+  | "Convert.ambient_labels", us =>
+      match unitArgs us with
+      | some units => some [.v (codesOfStr ("\n".intercalate (outUnits (Gen.UnitsData.ambient (α := Float)) units)))]
       | none => none
   | "Convert.ambient_std", [.v u] =>
       match Std.ambientLookup (strOfCodes u) with
